@@ -60,7 +60,7 @@ def gen_case(rng, ctx):
                        "negint"])
     n = rng.randint(2, 8)
     _, names = gen.element_names(rng, n, kind)
-    cls, ds = gen.dataset(rng, classes="D2 D3 D3 D4 D4 D6 D7", names=names, n=n, mmax=6)
+    cls, ds = gen.dataset(rng, classes="D2 D3 D3 D4 D4 D6 D7 D14", names=names, n=n, mmax=6)
     k = rng.randint(3, 10)
     return {"ds": ds, "names_kind": kind, "dcls": cls, "ops": [rng.choice(OPS) for _ in range(k)],
             "opseed": rng.randrange(10 ** 6), "via": rng.choice(["constructor", "from_raw_list", "elements"])}
@@ -302,6 +302,13 @@ def check_case(case, ctx):
             if st == "ok":
                 for r in cons.consensus_rankings:
                     if not check_ranking_obj(ctx, case, step, r, "consensus:" + cfg):
+                        return
+            # a Consensus built by hand from the dataset's own rankings (they may hold empty buckets)
+            st, cons2 = call(lambda: ck.Consensus(list(d.rankings), dataset=d, scoring_scheme=scheme))
+            if st == "ok":
+                ctx.count("hand_built_consensuses")
+                for r in cons2.consensus_rankings:
+                    if not check_ranking_obj(ctx, case, step, r, "consensus:hand-built"):
                         return
         elif op == "eq_model":
             # the dataset must compare equal to a fresh dataset built from the model (its current content)
